@@ -6,7 +6,7 @@ from .geo_common import *  # noqa
 ID = "C10"
 LEVEL = "exploration"
 PROBES = ('volumes_judged', 'volumes_direct', 'density_judged', 'count_tests', 'ops_judged')
-RULE = ('geometry cases with density entries over-weighted; judged: (i) every volume(params) the library computed during simulated sampling on every node (monitor) and volume(params) of the root against R-geo closed forms / composition rules (rtol 1e-4, one positive value per row), (ii) density sampling: rows == ceil(d*mu) for closed-form primitives and their boundaries (float rounding at integers accepted), grid rows in [0|1, ceil(d*mu)+leaves-1], (iii) pooled mean count of rejection-based shapes and Boolean combinations against d*mu_true (z-test alpha=1e-9, mu_true by quadrature of the reference margin) (40 pooled calls per case in quick, 400 in thorough), (iv) histories: set_volume / flags through partial evaluation, translation, rotation. non-trivial = at least one volume or count judged')
+RULE = ('geometry cases with density entries over-weighted; judged: (i) every volume(params) the library computed during simulated sampling on every node (monitor) and volume(params) of the root against R-geo closed forms / composition rules (rtol 1e-4, one positive value per row), (ii) density sampling: rows == ceil(d*mu) for closed-form primitives and their boundaries (float rounding at integers accepted), grid rows in [0|1, ceil(d*mu)+leaves-1], (iii) pooled mean count of rejection-based shapes and Boolean combinations against d*mu_true (z-test alpha=1e-9, mu_true by quadrature of the reference margin) (40 pooled calls per case in quick, 400 in thorough), (iv) histories: set_volume (number, 0-dim tensor, (1,1) tensor, function of the parameter) then volume / density count / partial evaluation / translation / rotation / product / disjoint union, operations possibly repeated, and volume() again as the last step (the stored user value must survive). non-trivial = at least one volume or count judged')
 ASSUMPTIONS = GEO_ASSUMPTIONS + ['volume() of expressions without an exact value (non-disjoint unions, non-contained cuts, intersections, dependent products) is only checked for shape/positivity where monitored']
 
 
